@@ -355,6 +355,18 @@ fn junk_bytes(pr: &mut Prng, len: usize) -> Vec<u8> {
             v[l - 32..].copy_from_slice(&model::be32(&(q + pr.below(3))));
             v
         }
+        4 | 5 => {
+            // limb-sparse value (zero / all-ones / single-bit limbs): U512 division and carry paths
+            let v = crate::world_fld::limb_sparse(pr, (len + 7) / 8);
+            let full = v.to_bytes_be();
+            let mut out = vec![0u8; len];
+            if full.len() >= len {
+                out.copy_from_slice(&full[full.len() - len..]);
+            } else {
+                out[len - full.len()..].copy_from_slice(&full);
+            }
+            out
+        }
         _ => pr.bytes(len),
     }
 }
